@@ -1,6 +1,7 @@
 (* Proofs about Model/IcyLayer.v: the LAYER_n record decodes back to an observationally equal layer. *)
 From Coq Require Import ZArith NArith List Bool Lia.
 From IE Require Import Lib.Tbl Lib.Bits Gen.IcyGen Model.IcyLayer.
+From IE Require Model.Unicode Proofs.UnicodeProofs.     (* C10: char::from_u32 and String::from_utf8_lossy; used qualified *)
 Import ListNotations.
 Local Open Scope N_scope.
 
@@ -104,13 +105,23 @@ Proof.
   unfold dec_cell. rewrite T. cbv beta iota zeta. rewrite U. reflexivity.
 Qed.
 
-Lemma dec_cell_short c f b p a r : a < 16384 ->
+(* the loader's new check (char::from_u32) never fires on a scalar value — and fires on everything else *)
+Lemma checked_cell_scalar c f b p a r : scalar c = true -> checked_cell c f b p a r = Ok (CSet (mkc c f b p a) r).
+Proof. intro H. unfold checked_cell, Unicode.char_from_u32. fold (scalar c). rewrite H. reflexivity. Qed.
+
+Lemma checked_cell_rejects c f b p a r : scalar c = false -> checked_cell c f b p a r = Err 10.
+Proof. intro H. unfold checked_cell, Unicode.char_from_u32. fold (scalar c). rewrite H. reflexivity. Qed.
+
+Lemma scalar_byte c : c <= 255 -> scalar c = true.
+Proof. intro H. unfold scalar, Unicode.scalarb. apply orb_true_intro. left. apply N.ltb_lt. lia. Qed.
+
+Lemma dec_cell_short c f b p a r : a < 16384 -> scalar c = true ->
   dec_cell (le 2 (N.lor a SHORT_DATA) ++ [c; f; b; p] ++ r) = Ok (CSet (mkc c f b p a) r).
 Proof.
-  intro Ha. destruct (word_facts a Ha) as (E1 & E2 & E3 & E4 & E5 & _).
+  intros Ha Hs. destruct (word_facts a Ha) as (E1 & E2 & E3 & E4 & E5 & _).
   destruct (take2 _ ([c; f; b; p] ++ r) E5) as [T U].
   unfold dec_cell. rewrite T. cbv beta iota zeta. rewrite U, E1, E2. cbn [negb]. cbv iota. rewrite E3, E4.
-  reflexivity.
+  cbn [app takeN N.eqb N.pred Pos.pred_N Pos.pred_double]. apply checked_cell_scalar. exact Hs.
 Qed.
 
 Lemma long_fields (a b c e x : list N) :
@@ -141,12 +152,12 @@ Proof.
   cbv zeta in T14, F1, F2, F3, F4. rewrite T14. cbv beta iota zeta.
   rewrite F1, F2, F3, F4.
   rewrite !unle_le by (first [ change (256 ^ N.of_nat 4) with 4294967296 | change (256 ^ N.of_nat 2) with 65536 ]; assumption).
-  rewrite Hs. destruct c; reflexivity.
+  rewrite checked_cell_scalar by exact Hs. destruct c; reflexivity.
 Qed.
 
 Lemma scalar_u32 c : scalar c = true -> c < 4294967296.
 Proof.
-  unfold scalar. intro H. apply orb_prop in H as [H|H].
+  unfold scalar, Unicode.scalarb. intro H. apply orb_prop in H as [H|H].
   - apply N.ltb_lt in H. lia.
   - apply andb_prop in H as [_ H]. apply N.ltb_lt in H. lia.
 Qed.
@@ -481,8 +492,14 @@ Qed.
 Definition fits (L : layer) : Prop :=
   snd (enc_rows enc_cell L (Z.to_nat (lh L)) 0%Z (N.of_nat (length (enc_header L)) + 8)) = O.
 
-(* Rust type invariants of the fields (u8, i32) *)
+(* the loader's other new check: from_utf8_lossy leaves a valid string as it is (C10: lossy_fuel_id) *)
+Lemma lossy_valid bs : Unicode.utf8_valid bs = true -> Unicode.utf8_lossy bs = bs.
+Proof. exact (UnicodeProofs.lossy_fuel_id (length bs) bs). Qed.
+
+(* Rust type invariants of the fields (String, u8, i32).  utf8_valid is core::str::from_utf8(..).is_ok(), proved equivalent
+   to "the bytes are the UTF-8 encoding of a list of scalar values" in Proofs/UnicodeProofs.v (utf8_valid_spec_proof) *)
 Record ty_layer (L : layer) : Prop := {
+  ty_title : Unicode.utf8_valid (title L) = true;
   ty_transparency : transparency L < 256;
   ty_color : match color L with Some (r, g, b) => r < 256 /\ g < 256 /\ b < 256 | None => True end;
   ty_off : i32 (fst (get_offset L)) /\ i32 (snd (get_offset L));
@@ -556,7 +573,7 @@ Theorem layer_roundtrip_full L : ty_layer L -> wf_layer L ->
   exists bs L', encode L = Ok bs /\ decode bs = Ok L' /\ layer_equiv L' L /\ props_eq L' L /\ role L' = RNormal /\
                 preview L' = None /\ (ox L', oy L') = get_offset L.
 Proof.
-  intros [Ttr Tcol [Tox Toy] [Tw Th]] [Wrole Wsize Wtitle Wdfp Wcells Wfits].
+  intros [Tttl Ttr Tcol [Tox Toy] [Tw Th]] [Wrole Wsize Wtitle Wdfp Wcells Wfits].
   (* the encoding *)
   unfold fits in Wfits.
   destruct (enc_rows enc_cell L (Z.to_nat (lh L)) 0%Z (N.of_nat (length (enc_header L)) + 8)) as [rows todo] eqn:ER.
@@ -580,7 +597,7 @@ Proof.
     destruct (flags_ok L) as (Fu & F1 & F2 & F3 & F4 & F5).
     unfold decode, enc_header. rewrite <- !app_assoc. cbn [app].
     rewrite take4_le. cbn [bind fst snd]. rewrite unle_le by (change (256 ^ N.of_nat 4) with 4294967296; exact Wtitle).
-    rewrite take_app. cbn [bind fst snd byte skipn].
+    rewrite take_app. cbn [bind fst snd byte skipn]. rewrite (lossy_valid _ Tttl).
     assert (Erole : (role_byte (role L) =? 1) = false) by (destruct (role L); try reflexivity; congruence).
     assert (Emode : match mode_byte (mode L) with 0 => Some MNormal | 1 => Some MChars | 2 => Some MAttributes | _ => None end = Some (mode L))
       by (destruct (mode L); reflexivity).
@@ -715,6 +732,26 @@ Lemma negative_width_panics :
   encode (mkLayer [] RNormal MNormal None true false false false false 0 0 0 None (-1) 1 0 []) = Panic 3.
 Proof. reflexivity. Qed.
 
+(* the two checks the merged loader makes (char::from_u32, from_utf8_lossy) are what `scalar (ch c)` in cell_ok and
+   ty_title are for: a model layer outside the Rust types does not come back *)
+Lemma non_scalar_char_rejected :
+  (exists bs, encode (lay RNormal None 0 [[mkc 55296 7 0 0 0]]) = Ok bs /\ decode bs = Err 10) /\
+  (exists bs, encode (lay RNormal None 0 [[A_cell; mkc 1114112 7 0 0 0]]) = Ok bs /\ decode bs = Err 10).
+Proof. split; eexists; (split; [vm_compute; reflexivity | vm_compute; reflexivity]). Qed.
+
+Lemma invalid_title_replaced :
+  exists bs L', encode (mkLayer [65; 255] RNormal MNormal None true false false false false 0 0 0 None 1 1 0 [[A_cell]]) = Ok bs /\
+                decode bs = Ok L' /\ title L' = [65; 239; 191; 189].
+Proof. eexists. eexists. split; [vm_compute; reflexivity|]. split; [vm_compute; reflexivity|reflexivity]. Qed.
+
+(* … and they never fire on what the writer produces from a Rust layer: every cell record of a cell_ok cell decodes to
+   that cell (dec_enc_cell above), every valid title is left alone *)
+Lemma new_checks_silent :
+  (forall c r, cell_ok c -> dec_cell (enc_cell c ++ r) = Ok (if is_visible c then CSet c r else CSkip r)) /\
+  (forall t, Unicode.utf8_valid t = true -> Unicode.utf8_lossy t = t) /\
+  (forall c f b p a r, scalar c = false -> checked_cell c f b p a r = Err 10).
+Proof. exact (conj dec_enc_cell (conj lossy_valid checked_cell_rejects)). Qed.
+
 (* the defect that was fixed: before the fix an invisible cell kept its extra flag bits in the file *)
 Definition encode_before_fix : layer -> res (list N) := encode_with enc_cell_before_fix.
 
@@ -767,7 +804,7 @@ Definition sample_layer : layer :=
 Lemma sample_layer_ok : ty_layer sample_layer /\ wf_layer sample_layer.
 Proof.
   split.
-  - split; cbn; unfold i32; repeat split; lia.
+  - split; [vm_compute; reflexivity | | | |]; cbn; unfold i32; repeat split; lia.
   - split.
     + discriminate.
     + left. cbn. lia.
